@@ -454,8 +454,12 @@ class ArgumentParser:
             log.warning(f"Unrecognized arguments: '{' '.join(unrecognized)}'")
 
         # A compiler searches all -I directories before any -isystem
-        # directory, whatever their order on the command line.
-        args.include_paths = args.include_paths + args.system_include_paths
+        # directory, whatever their order on the command line. A directory
+        # named by both is searched (once) as a system directory.
+        system = {os.path.normpath(p) for p in args.system_include_paths}
+        args.include_paths = [
+            p for p in args.include_paths if os.path.normpath(p) not in system
+        ] + args.system_include_paths
 
         # Construct final list of active modes, without duplicates and in
         # the order they were enabled (iterating over a set would make the
